@@ -65,6 +65,8 @@ def family(tier):
                 fam.append(sh)
     for sh in c04.shape_family('quick', 0)[::6 if tier == 'quick' else 2]:
         fam.append(sh)
+    from .. import shapes
+    fam += shapes.random_family(31, 20 if tier == 'quick' else 150, need_a=False, allow_trunc=True)
     # explicit specials: padded metadata-less middle segment followed by more segments; marker; big endian; strings
     base = [A, 'full', 3, 2]
     fam.append([s1.seg([base, [B, 'full', 2, 1]], 2), s1.seg([], 1, meta=False, pad=5), s1.seg([[A, 'full', 3, 1]], 2, newobj=False),
